@@ -140,17 +140,30 @@ pub mod proofs {
         core::mem::forget(s);
     }
 
-    /// a delivery on thread 1 while thread 0 is anywhere inside unregister()/register()
+    /// a delivery on thread 1 while thread 0 is anywhere inside unregister()
     #[kani::proof]
     #[kani::stub(alloc::alloc::alloc, c03_alloc)]
     #[kani::stub(alloc::alloc::dealloc_nonnull, c03_dealloc)]
-    #[kani::unwind(10)]
-    pub fn c03_lr_delivery_vs_mutator() {
+    #[kani::unwind(9)]
+    pub fn c03_lr_delivery_vs_unregister() {
+        lr_delivery_vs_mutator(true);
+    }
+    /// ... inside register() of another signal
+    #[kani::proof]
+    #[kani::stub(alloc::alloc::alloc, c03_alloc)]
+    #[kani::stub(alloc::alloc::dealloc_nonnull, c03_dealloc)]
+    #[kani::unwind(9)]
+    pub fn c03_lr_delivery_vs_register() {
+        lr_delivery_vs_mutator(false);
+    }
+    /// (two harnesses, `which` concrete: with the state really present in the LR
+    /// part - see DESIGN 9 - one query for both was 7 M variables and 200 s per
+    /// judged assertion)
+    fn lr_delivery_vs_mutator(which: bool) {
         // (set before the state is built: the sequential stores of the registrations
         // must reach the round-0 memory the LR part starts from)
         unsafe { vshim::ST::mirror_ptrs = true };
         let (f, id) = builtin_actions(0);
-        let which: bool = kani::any();
         vshim::set_mode_lr(3, 3, 0);
         vshim::thread_start(0);
         if which {
@@ -176,8 +189,7 @@ pub mod proofs {
             (E_MAY_BLOCK, "a built-in action wrote to its pipe in a way that can block"),
         );
         kani::cover!(f.load(Ordering::SeqCst) && vshim::consistent(), "the delivery ran the registered flag action");
-        kani::cover!(which && r0 >= 1 && r1 >= 1 && vshim::consistent(), "delivery overlapped an unregister (both threads ran in more than one round)");
-        kani::cover!(!which && r0 >= 1 && r1 >= 1 && vshim::consistent(), "delivery overlapped a register of another signal");
+        kani::cover!(r0 >= 1 && r1 >= 1 && vshim::consistent(), "delivery overlapped the mutator (both threads ran in more than one round)");
         core::mem::forget(f);
     }
 }
